@@ -137,9 +137,6 @@ pub fn expect_jar(jar: &JarIndex, rows: &[Row]) -> JarExpectation {
     JarExpectation { applying, verdicts, names, must_create, may_create }
 }
 
-/// The class renamer a name table yields (identity outside the table).
-pub fn renamer(names: &BTreeMap<String, String>) -> impl Fn(&str) -> String + '_ { move |c| names.get(c).cloned().unwrap_or_else(|| c.to_string()) }
-
 /// `true` when `old -> new` (identity outside) is injective on `universe` united with the table's classes.
 pub fn injective(names: &BTreeMap<String, String>, universe: &BTreeSet<String>) -> bool {
     let mut seen = BTreeSet::new();
